@@ -38,6 +38,17 @@ func NewParser(buildTags []string) *Parser {
 	return p
 }
 
+// hasSubPackage returns whether any of the loaded packages that have Go files
+// lives below pkgPath.
+func hasSubPackage(pkgs []*packages.Package, pkgPath string) bool {
+	for _, pkg := range pkgs {
+		if len(pkg.GoFiles) != 0 && strings.HasPrefix(pkg.PkgPath, pkgPath+"/") {
+			return true
+		}
+	}
+	return false
+}
+
 func (p *Parser) ParsePackages(ctx context.Context, packageNames []string) ([]*config.Interface, error) {
 	log := zerolog.Ctx(ctx)
 	interfaces := []*config.Interface{}
@@ -50,7 +61,12 @@ func (p *Parser) ParsePackages(ctx context.Context, packageNames []string) ([]*c
 		pkgLog := log.With().Str("package", pkg.PkgPath).Logger()
 		pkgCtx := pkgLog.WithContext(ctx)
 
-		if len(pkg.GoFiles) == 0 {
+		// A package without Go files is skipped, but not silently when it failed
+		// to load (it does not exist, or all of its files are excluded by build
+		// constraints). The only file-less package that is expected to have a
+		// load error is a directory that merely holds the sub-packages being
+		// loaded (`recursive: true` on a parent directory).
+		if len(pkg.GoFiles) == 0 && (len(pkg.Errors) == 0 || hasSubPackage(packages, pkg.PkgPath)) {
 			continue
 		}
 		for _, err := range pkg.Errors {
